@@ -143,6 +143,12 @@ def gen_case(rng, kind, stream):
         cls = rng.choice(classes)
         dirs.append(dict(cls=cls, d=sc.gen_direction(rng, sh, cls)))
     feats = [dict(cls=c, d=d) for c, d in feature_dirs(sh)]
+    if stream == "exact" and kind in ("hull", "box", "mesh") and margin is None:
+        # exhaustive: all 26 sign directions; ties between vertices are decided by index order, and
+        # model and code must return the very same vertex
+        import itertools as _it
+        feats += [dict(cls="sign26", d=[float(a), float(b), float(c3)])
+                  for a, b, c3 in _it.product((-1, 0, 1), repeat=3) if (a, b, c3) != (0, 0, 0)]
     if kind == "mesh":
         rng.shuffle(feats)
         dirs = dirs[:1] + feats + dirs[1:]         # the cached start vertex is the previous answer
@@ -633,7 +639,7 @@ def run(tier, seed, replay=None):
                      "up to 30 queries on ONE object, each repeated on a fresh object) from classes random / axis-aligned / "
                      "sign-boundary (components in {0,+-1,+-1e-300,+-1e-9}) / powers of two incl. 2^-50, 2^-48 (straddling the "
                      "10*eps threshold of the hill climb) / parallel to a shape axis / orthogonal to or mixing shape axes / "
-                     "cone: around the rim-apex switch line; distinct_nontrivial counts distinct (case hash, direction index) "
+                     "cone: around the rim-apex switch line; exact hull / box / mesh cases additionally get all 26 sign directions; distinct_nontrivial counts distinct (case hash, direction index) "
                      "pairs whose direction is non-zero, whose answer passed the oracle and for which the shape has non-zero "
                      "extent along d")
     R.assumptions += [
